@@ -19,7 +19,7 @@ func init() {
 	Register(&Rule{
 		ID:    "R-INPUTRO",
 		Doc:   "interprocedural mod summary (index store, copy/append destination, external writers; aliases followed through slicing, φ and callees' returned aliases, dynamic calls by signature class): the input parameter of every json decoder/parser/validator entry and decoder method, of proto Unmarshal/Parse/Scan/decode functions and of every Rewriter.Rewrite (`in`) is not in the function's mod set; Tokenizer never writes through its input field",
-		Props: []string{"C10", "C19", "C17", "C02"},
+		Props: []string{"C10", "C19", "C17", "C02", "C09"},
 		Min:   map[string]int{"C10": 60, "C19": 8, "C17": 2},
 		Run:   runInputRO,
 	})
@@ -311,7 +311,7 @@ func runInputRO(c *core.Ctx) []core.Obligation {
 				if fn.Name() == "AppendUnescape" {
 					idx = firstBytes + 1 // (b dst, s input)
 				}
-				entries = append(entries, entry{fn, idx, []string{"C10", "C02"}, "json input"})
+				entries = append(entries, entry{fn, idx, []string{"C10", "C02", "C09"}, "json input"})
 			}
 			if recv != nil && namedTypeIs(recv.Type(), "json", "Tokenizer") && fn.Name() == "Reset" && firstBytes >= 0 {
 				entries = append(entries, entry{fn, firstBytes, []string{"C10", "C17"}, "tokenizer input"})
